@@ -607,7 +607,14 @@ impl Serialize for Value {
         S: Serializer,
     {
         use serde::ser::SerializeMap;
-        let mut map = serializer.serialize_map(Some(2))?;
+        // JSON has no NaN or infinity (serde_json writes `null`, which cannot be read
+        // back), so non-finite floats additionally carry their bit pattern.
+        let has_bits = match self {
+            Value::Float64(v) => !v.is_finite(),
+            Value::Vector(v) => v.iter().any(|x| !x.is_finite()),
+            _ => false,
+        };
+        let mut map = serializer.serialize_map(Some(if has_bits { 3 } else { 2 }))?;
         match self {
             Value::Int32(v) => {
                 map.serialize_entry("type", "Int32")?;
@@ -620,6 +627,9 @@ impl Serialize for Value {
             Value::Float64(v) => {
                 map.serialize_entry("type", "Float64")?;
                 map.serialize_entry("value", v)?;
+                if has_bits {
+                    map.serialize_entry("bits", &v.to_bits())?;
+                }
             }
             Value::String(s) => {
                 map.serialize_entry("type", "String")?;
@@ -636,6 +646,10 @@ impl Serialize for Value {
             Value::Vector(v) => {
                 map.serialize_entry("type", "Vector")?;
                 map.serialize_entry("value", v.as_ref())?;
+                if has_bits {
+                    let bits: Vec<u32> = v.iter().map(|x| x.to_bits()).collect();
+                    map.serialize_entry("bits", &bits)?;
+                }
             }
             Value::VectorInt8(v) => {
                 map.serialize_entry("type", "VectorInt8")?;
@@ -673,6 +687,7 @@ impl<'de> Deserialize<'de> for Value {
             {
                 let mut type_str: Option<String> = None;
                 let mut raw_value: Option<serde_json::Value> = None;
+                let mut raw_bits: Option<serde_json::Value> = None;
 
                 while let Some(key) = map.next_key::<String>()? {
                     match key.as_str() {
@@ -681,6 +696,9 @@ impl<'de> Deserialize<'de> for Value {
                         }
                         "value" => {
                             raw_value = Some(map.next_value()?);
+                        }
+                        "bits" => {
+                            raw_bits = Some(map.next_value()?);
                         }
                         _ => {
                             let _: serde_json::Value = map.next_value()?;
@@ -704,6 +722,11 @@ impl<'de> Deserialize<'de> for Value {
                         Ok(Value::Int64(v))
                     }
                     "Float64" => {
+                        if let Some(bits) = raw_bits {
+                            let b: u64 =
+                                serde_json::from_value(bits).map_err(serde::de::Error::custom)?;
+                            return Ok(Value::Float64(f64::from_bits(b)));
+                        }
                         let v: f64 =
                             serde_json::from_value(raw_value).map_err(serde::de::Error::custom)?;
                         Ok(Value::Float64(v))
@@ -720,6 +743,12 @@ impl<'de> Deserialize<'de> for Value {
                     }
                     "Null" => Ok(Value::Null),
                     "Vector" => {
+                        if let Some(bits) = raw_bits {
+                            let b: Vec<u32> =
+                                serde_json::from_value(bits).map_err(serde::de::Error::custom)?;
+                            let v: Vec<f32> = b.into_iter().map(f32::from_bits).collect();
+                            return Ok(Value::Vector(Arc::new(v)));
+                        }
                         let v: Vec<f32> =
                             serde_json::from_value(raw_value).map_err(serde::de::Error::custom)?;
                         Ok(Value::Vector(Arc::new(v)))
